@@ -131,12 +131,88 @@ func forwardPrivateStructs(fn *ssa.Function) int {
 		}
 		return nil
 	}
+	// a variable that lives in a cell only because a closure reads it (a parameter or local captured by
+	// reference, never written by the closure) and that is stored exactly once: each load the store dominates
+	// reads the stored value
+	var readOnlyFreeVar func(fv *ssa.FreeVar, depth int) bool
+	readOnlyFreeVar = func(fv *ssa.FreeVar, depth int) bool {
+		if depth > 3 || fv.Referrers() == nil {
+			return false
+		}
+		for _, r := range *fv.Referrers() {
+			switch y := r.(type) {
+			case *ssa.DebugRef:
+			case *ssa.UnOp:
+				if y.Op != token.MUL {
+					return false
+				}
+			case *ssa.MakeClosure:
+				inner, isFn := y.Fn.(*ssa.Function)
+				if !isFn {
+					return false
+				}
+				for i, b := range y.Bindings {
+					if b == ssa.Value(fv) && (i >= len(inner.FreeVars) || !readOnlyFreeVar(inner.FreeVars[i], depth+1)) {
+						return false
+					}
+				}
+			default:
+				return false
+			}
+		}
+		return true
+	}
+	cellStore := map[*ssa.Alloc]*ssa.Store{}
+	cellOf := func(al *ssa.Alloc) *ssa.Store {
+		if st, done := cellStore[al]; done {
+			return st
+		}
+		cellStore[al] = nil
+		if al.Referrers() == nil {
+			return nil
+		}
+		var only *ssa.Store
+		for _, r := range *al.Referrers() {
+			switch y := r.(type) {
+			case *ssa.DebugRef:
+			case *ssa.Store:
+				if y.Addr != ssa.Value(al) || y.Val == ssa.Value(al) || only != nil {
+					return nil
+				}
+				only = y
+			case *ssa.UnOp:
+				if y.Op != token.MUL {
+					return nil
+				}
+			case *ssa.MakeClosure:
+				inner, isFn := y.Fn.(*ssa.Function)
+				if !isFn {
+					return nil
+				}
+				for i, b := range y.Bindings {
+					if b == ssa.Value(al) && (i >= len(inner.FreeVars) || !readOnlyFreeVar(inner.FreeVars[i], 0)) {
+						return nil
+					}
+				}
+			default:
+				return nil
+			}
+		}
+		cellStore[al] = only
+		return only
+	}
 	repl := map[ssa.Value]ssa.Value{}
 	for _, b := range fn.Blocks {
 		for _, in := range b.Instrs {
 			switch x := in.(type) {
 			case *ssa.UnOp:
 				if x.Op != token.MUL {
+					continue
+				}
+				if al, isAl := x.X.(*ssa.Alloc); isAl {
+					if st := cellOf(al); st != nil && before(st, x) && types.Identical(st.Val.Type(), x.Type()) {
+						repl[x] = st.Val
+					}
 					continue
 				}
 				fa, ok := x.X.(*ssa.FieldAddr)
